@@ -160,18 +160,47 @@ func ruleBoundedQueue() check.Rule {
 				}
 				// the queue is received from in one place only: the range loop of the consumer. Any other receive (`<-ch`
 				// into a local batch) is a second, hidden buffer in front of the consumer
-				extra := 0
+				// receive sites: range loops over the queue and `<-queue` expressions. The consumer is one loop — the range
+				// form, or `for { x, ok := <-queue; if !ok { break } … }` — every other receive is a second buffer
+				var ranges []*ast.RangeStmt
+				var recvs []*ast.UnaryExpr
 				ast.Inspect(sc.Lit.Body, func(n ast.Node) bool {
-					if u, ok := n.(*ast.UnaryExpr); ok && u.Op == token.ARROW {
-						if id, _ := rootIdent(u.X); id != nil && objOf(info, id) == chanVar {
-							extra++
-							c.Violation(fmt.Sprintf("%s/extra-receive#%d", name, extra), u.Pos(), "the hand-off queue is also received from outside the consumer's range loop: the items taken here wait in a second buffer, so the producer runs ahead of the consumer by more than the configured capacity")
+					switch x := n.(type) {
+					case *ast.RangeStmt:
+						if id, _ := rootIdent(x.X); id != nil && objOf(info, id) == chanVar {
+							ranges = append(ranges, x)
+						}
+					case *ast.UnaryExpr:
+						if x.Op == token.ARROW {
+							if id, _ := rootIdent(x.X); id != nil && objOf(info, id) == chanVar {
+								recvs = append(recvs, x)
+							}
 						}
 					}
 					return true
 				})
+				inLoop := func(n ast.Node) bool {
+					for cn := m.Parent(sc.Pkg, n); cn != nil; cn = m.Parent(sc.Pkg, cn) {
+						switch cn.(type) {
+						case *ast.ForStmt, *ast.RangeStmt:
+							return true
+						case *ast.FuncLit:
+							return false
+						}
+					}
+					return false
+				}
+				recvLoopConsumer := len(ranges) == 0 && len(recvs) == 1 && inLoop(recvs[0])
+				extra := 0
+				for i, u := range recvs {
+					if recvLoopConsumer && i == 0 {
+						continue
+					}
+					extra++
+					c.Violation(fmt.Sprintf("%s/extra-receive#%d", name, extra), u.Pos(), "the hand-off queue is also received from outside the consumer's loop: the items taken here wait in a second buffer, so the producer runs ahead of the consumer by more than the configured capacity")
+				}
 				if extra == 0 && name == "ro.detachOn" {
-					c.OK(name+"/single-receive", sc.Lit.Pos(), "the queue is only received from by the consumer's range loop")
+					c.OK(name+"/single-receive", sc.Lit.Pos(), "the queue is only received from by the consumer's loop")
 				}
 				// no slice/list queue written from upstream slots
 				// sends: one per slot kind, all to chanVar; in terminal slots the send precedes the close
@@ -218,7 +247,7 @@ func ruleBoundedQueue() check.Rule {
 						}
 					}
 					// the consumer closure is walked once per arm (goroutine / body): one syntactic loop
-					if nrange >= 1 {
+					if nrange >= 1 || recvLoopConsumer {
 						c.OK(name+"/consumer", sc.Lit.Pos(), "the consumer ranges over the queue (FIFO by channel semantics)")
 					} else {
 						c.Violation(name+"/consumer", sc.Lit.Pos(), "no range over the hand-off queue found")
